@@ -1255,9 +1255,14 @@ class NinjaBackend(backends.Backend):
 
         write = True
         if os.path.exists(pickle_abs):
-            with open(pickle_abs, 'rb') as p:
-                old = pickle.load(p)
-            write = old != scaninfo
+            try:
+                with open(pickle_abs, 'rb') as p:
+                    old = pickle.load(p)
+                write = old != scaninfo
+            except (pickle.UnpicklingError, EOFError, TypeError, ModuleNotFoundError, AttributeError):
+                # The file is written in place: an interrupted run can leave it
+                # empty or truncated. It is about to be rewritten anyway.
+                pass
 
         if write:
             with open(pickle_abs, 'wb') as p:
